@@ -121,7 +121,8 @@ func c18TargetByID(id string) c18Target {
 //	apply      sandbox evaluates Ref(args)                 host: keeps the result
 //	later      sandbox returns \u Ref(args)                host: calls it with 0 afterwards
 //	host-apply sandbox returns Ref                         host: calls it with args afterwards
-var c18FnForms = []string{"get", "apply", "later", "host-apply"}
+//	get-bytes / apply-bytes: as get / apply, but the source is passed to the sandbox as a byte array
+var c18FnForms = []string{"get", "apply", "later", "host-apply", "get-bytes", "apply-bytes"}
 
 func c18Call(ref string, args []string) string { return ref + "(" + strings.Join(args, ", ") + ")" }
 
@@ -226,6 +227,11 @@ func c18Build(cfg c18Cfg, chain []string, target, form string) c18Prog {
 	switch form {
 	case "apply":
 		e = c18Call(t.Ref, t.Args)
+	case "get-bytes":
+		p.Host = `c18sb(c18srcb)`
+	case "apply-bytes":
+		e = c18Call(t.Ref, t.Args)
+		p.Host = `c18sb(c18srcb)`
 	case "later":
 		e = `\u ` + c18Call(t.Ref, t.Args)
 		p.Host = `c18sb(c18src)(0)`
@@ -262,7 +268,7 @@ func c18FormsOf(t c18Target) []string {
 	if t.Args != nil {
 		return c18FnForms
 	}
-	return []string{"get"}
+	return []string{"get", "get-bytes"}
 }
 
 var c18ProgCache = map[string][]c18Prog{}
@@ -294,6 +300,9 @@ func c18Programs(cfg *core.Config) []c18Prog {
 			}
 			for _, t := range c18Targets {
 				for _, f := range c18FormsOf(t) {
+					if strings.HasSuffix(f, "-bytes") && w.ID != "direct" && w.ID != "nested-eval" {
+						continue // byte-array sources: direct and nested-eval routes
+					}
 					if strings.HasPrefix(c.ID, "sub:") && (f == "later" || f == "host-apply") {
 						continue // the two deferred-call forms: named configurations only
 					}
@@ -326,7 +335,7 @@ func c18Programs(cfg *core.Config) []c18Prog {
 				for _, tid := range []string{"file", "exec", "get", "imp-arrai", "join"} {
 					t := c18TargetByID(tid)
 					for _, f := range c18FormsOf(t) {
-						if f == "host-apply" {
+						if f == "host-apply" || strings.HasSuffix(f, "-bytes") {
 							continue
 						}
 						if keep(r == "direct") {
